@@ -99,7 +99,18 @@ def pipeline(spec: dict) -> dict:
     try:
         out["stage"] = "setup"
         offeq = spec.get("offeq")
-        m = wg.setup_manager(am, Tn, hi, lo, M=spec.get("M", 20), N=OFFEQ_N if offeq else 11, cfg=cfg, Tscale=spec.get("Tscale", 10.0) * s, fscale=fscale * s)
+        if spec.get("previous") is not None:
+            # the manager has served ANOTHER description of the physics before (e.g. the original labelling of the fields) at the same
+            # nucleation temperature and is now set up again, as its documentation asks for "whenever details of the model change"
+            pam, phi_, plo_ = build({**spec, **spec["previous"]})
+            pfs = np.asarray(spec.get("fscale", [10.0] * pam.nf), dtype=float)
+            if spec["previous"].get("relabel"):
+                pfs = pfs[spec["previous"]["relabel"][0]]
+            m = wg.setup_manager(pam, Tn, phi_, plo_, M=spec.get("M", 20), N=OFFEQ_N if offeq else 11, cfg=cfg,
+                                 Tscale=spec.get("Tscale", 10.0) * s, fscale=pfs * s)
+            wg.resetup(m, am, Tn, hi, lo, Tscale=spec.get("Tscale", 10.0) * s, fscale=fscale * s)
+        else:
+            m = wg.setup_manager(am, Tn, hi, lo, M=spec.get("M", 20), N=OFFEQ_N if offeq else 11, cfg=cfg, Tscale=spec.get("Tscale", 10.0) * s, fscale=fscale * s)
         hyd, th = m.hydrodynamics, m.thermodynamics
         out.update(
             Tn=Tn, vJ=float(hyd.vJ), vMin=float(hyd.vMin), alN=float(hyd.template.alN), psiN=float(hyd.template.psiN),
